@@ -17,7 +17,7 @@ from tools.props import c06_gen as gen
 from tools.props import c06_ts as tsread
 
 MANIFEST = {
-    "level_text": "Coq theorems (Properties/C06.v, 30 theorems, no axioms) about a Gallina transcription of serde_parser.rs (substring scanners on the proc_macro2 token string), struct_parser.rs (unraw names, skip filter for fields and variants), NamingContext::apply_naming_convention / compute_field_name / compute_variant_name and serde-rename-rule's apply_to_field / apply_to_variant: for every configured default_field_case, container kind, container rename_all, ASCII identifier (plain or raw) and attribute list (rename = any string, skip, any other name / name = any string, in any order, in one or several #[serde] attributes) in every legal serde spelling (rename = v, rename(serialize = v, deserialize = w), likewise rename_all, other container keys anywhere), for unit / tuple / struct variants, outside six narrow recorded classes (C06-2, -3, -4, -5, -8, -9) and the configuration class C06-7 the emitted names are exactly serde's wire names (serde_derive case.rs apply_to_field / apply_to_variant, item rename wins, absent iff skip) (C06_names_cfg; C06_names for the default configuration, where C06-7 is empty); other attributes are inert there; each class has a computed counterexample; the run-time oracle is proved exact (C06_oracle_exact). String level, every byte string: js_unescape inverts escape_js, a quoted key or enum literal lexes (Spec/TsLex) to one string token whose decoded body is the name, the key token before the colon decodes to the name whichever form ts_key chose, and for the enum alias template the text of any non-empty literal list lexes to its tokens and the type parser plus lits_of_ty read exactly the names back. Tied to /repo on every run: ~10^4 containers through the real StructParser, FieldContext and both generators (keys read back from types.ts) against the extracted model and oracle, and the specification against the real serde_derive on 18 containers.",
+    "level_text": "Coq theorems (Properties/C06.v, 28 theorems, no axioms) about a Gallina transcription of serde_parser.rs (skip by substring test, rename / rename_all by the whole-key scanner find_key / written_value on the proc_macro2 token string), struct_parser.rs (unraw names, skip filter for fields and variants), NamingContext::apply_naming_convention / compute_field_name / compute_variant_name and serde-rename-rule's apply_to_field / apply_to_variant: for every configured default_field_case, container kind, container rename_all, ASCII identifier (plain or raw) and attribute list (rename = any string, skip, any other name / name = any string, in any order, in one or several #[serde] attributes) in every legal serde spelling (rename = v, rename(serialize = v, deserialize = w), likewise rename_all, other container keys anywhere), for unit / tuple / struct variants, outside four narrow recorded classes (C06-2, -3, -4, -5) and the configuration class C06-7 the emitted names are exactly serde's wire names (serde_derive case.rs apply_to_field / apply_to_variant, item rename wins, absent iff skip) (C06_names_cfg; C06_names for the default configuration, where C06-7 is empty); other attributes are inert there; each class has a computed counterexample; the run-time oracle is proved exact (C06_oracle_exact). String level, every byte string: js_unescape inverts escape_js, a quoted key or enum literal lexes (Spec/TsLex) to one string token whose decoded body is the name, the key token before the colon decodes to the name whichever form ts_key chose, and for the enum alias template the text of any non-empty literal list lexes to its tokens and the type parser plus lits_of_ty read exactly the names back. Tied to /repo on every run: ~10^4 containers through the real StructParser, FieldContext and both generators (keys read back from types.ts) against the extracted model and oracle, and the specification against the real serde_derive on 18 containers.",
     "design_ref": "DESIGN.md section 5 C06",
     "level_note": "Identifiers are ASCII: field rules and the PascalCase / lowercase / UPPERCASE / camelCase variant rules use only ASCII operations and the byte-level model is exact for them on any UTF-8 identifier, but SnakeCase-based variant rules call char::is_uppercase (Unicode), for which no table exists in the development; non-ASCII identifiers are therefore left out of the domain rather than half covered. String level: proved per token (key, literal) and for the whole enum alias right-hand side; the interface member list, the z.object property list and the z.enum array are not carried through p_members / p_exlist / p_item (the lexing of their keys and literals is covered by C06_key_token / C06_lex_literal, the rest is checked by the run-time read-back only). ts_key's Unicode test is_identifier_name is a parameter (bare only for identifier bytes). The five sequential replaces of escape_js are taken as the character-wise map (proved for the identical escape_js_string by C11's escape_charwise). The specification of serde's rules is a transcription of serde_derive's case.rs, compared on every run with types derived by the real serde_derive on 18 fixed containers (finite validation). The tie between model and code is differential (bounded).",
     "technique": "Rocq/Coq proof over hand-written model + correspondence check (extracted OCaml vs Rust harness)"
@@ -36,7 +36,7 @@ TRUSTED = [
 ]
 ASSUMPTIONS = ["identifiers are ASCII (plain or raw)"]
 
-KF_IDS = ["C06-2", "C06-3", "C06-4", "C06-5", "C06-7", "C06-8", "C06-9"]      # order of ExC06.c06_classes; C06-1 and C06-6 are repaired
+KF_IDS = ["C06-2", "C06-3", "C06-4", "C06-5", "C06-7"]      # order of ExC06.c06_classes; C06-1, -6, -8, -9 are repaired      # order of ExC06.c06_classes; C06-1 and C06-6 are repaired
 
 
 def container_sx(c):
